@@ -95,8 +95,10 @@ class XWiki20Renderer(BaseRenderer):
 
     def render_quote(self, token):
         self.lastChildOfQuotes.append(token.children[-1])
-        inner = self.render_inner(token)
-        del (self.lastChildOfQuotes[-1])
+        try:
+            inner = self.render_inner(token)
+        finally:
+            del (self.lastChildOfQuotes[-1])
 
         return (
             "".join(
@@ -134,8 +136,10 @@ class XWiki20Renderer(BaseRenderer):
             prefix += '.'
 
         self.firstChildOfListItems.append(token.children[0])
-        inner = self.render_inner(token)
-        del (self.firstChildOfListItems[-1])
+        try:
+            inner = self.render_inner(token)
+        finally:
+            del (self.firstChildOfListItems[-1])
 
         result = template.format(prefix=prefix, inner=inner.rstrip())
 
@@ -148,7 +152,12 @@ class XWiki20Renderer(BaseRenderer):
             else:
                 self.listTokens.append('*')
 
-        rendered = [self.render(child) for child in token.children]
+        try:
+            rendered = [self.render(child) for child in token.children]
+        except BaseException:
+            if isinstance(token, block_token.List):
+                del (self.listTokens[-1])
+            raise
 
         wrap = False
         if isinstance(token, block_token.BlockToken) and len(token.children) > 1:
